@@ -116,3 +116,10 @@ func UnionOrderFixed(q *Q) bool {
 	v2, ok2 := fixedConst(q.Src.Src2, q.Cols[0])
 	return ok1 && ok2 && v1 != v2
 }
+
+// ClassWholeRowFlips: whether an overall min/max returns the whole record is
+// decided from the keys of the summarize's source; Transform rebuilds the
+// summarize over a rewritten source whose inferred keys differ (e.g. a project
+// pushed into the sources of a join), so the optimized query has the source's
+// columns in addition to the columns of the query as written.
+const ClassWholeRowFlips = "whole-row-decision-changes-with-transform"
